@@ -294,6 +294,9 @@ class Explorer:
             elif t[0] == 'union':
                 for i, a in enumerate(t[1]):
                     alts.append(('alt', i, show(a)))
+            elif t[0] == 'int' and p in c.opts.get('int_cases', {}):
+                # explicit concrete values of an int parameter (e.g. the precision of a bounded stand-in)
+                alts = [('int', v, str(v)) for v in c.opts['int_cases'][p]]
             else:
                 raise InterpError(f'cannot split on {p}: {tstr}')
             out = [dict(o, **{p: a}) for o in out for a in alts]
@@ -317,6 +320,10 @@ class Explorer:
                     P.param_types[p] = (t, bound[p])
                     continue
                 if cs[0] == 'bool':
+                    bound[p] = cs[1]
+                    P.param_types[p] = (t, bound[p])
+                    continue
+                if cs[0] == 'int':
                     bound[p] = cs[1]
                     P.param_types[p] = (t, bound[p])
                     continue
@@ -563,7 +570,11 @@ class Explorer:
             if npaths > self.max_paths:
                 unsupported.append(f'path budget {self.max_paths} exceeded')
                 break
-            P = Path(self, prefix)
+            if c.opts.get('dialect') == 'fpy':
+                from .fpydialect import FpyPath
+                P = FpyPath(self, prefix)
+            else:
+                P = Path(self, prefix)
             res = PathResult()
             try:
                 self.verify_path(P, c, info, case, res)
@@ -583,6 +594,9 @@ class Explorer:
                 bounded_opt = c.opts.get('bounded')
                 if bounded_opt:
                     st, secs, backend, smt2 = self.discharge(ob.pc, ob.goal)
+                    if st not in ('unsat', 'bounded-unsat') and c.opts.get('dialect'):
+                        # bounded FPy stand-in: the model of the failed query is a counterexample
+                        cex, rstatus = self.refute(P, c, ob, [bounded_opt], c.opts.get('bounded_ms', 60000))
                 else:
                     # 1. proof attempt (z3)  2. quick bounded refutation  3. cvc5 / z3-retry  4. wider refutation
                     st, secs, backend, smt2 = self._discharge(ob.pc, ob.goal, fallback=False)
